@@ -17,6 +17,7 @@ List Call` (any arguments: removed handles, ids that never existed, snapshots th
 -/
 import Proofs.Lib1Raw
 import Proofs.Lib1Proj
+import Proofs.Lib1Blobs
 
 namespace EngineModel.Properties.C11Lib1
 open EngineModel EngineModel.Lib.V1 EngineModel.Api
@@ -179,5 +180,55 @@ theorem C11_lib1_raw_check_rejects_known_damage :
     libFailures .s1_17_0 { good with cr := ({ good.cr with track := [⟨1, true⟩, ⟨2, false⟩] } : CratesV1.Db), trackArt := [(1, some 1), (2, none)], metaStr := good.metaStr ++ [(2, 1)], infoM := [⟨[77], (1, 17, 0)⟩], infoP := [⟨[80], (1, 17, 0)⟩] } =
       ["metadata-of-live-tracks"] := by
   decide +kernel
+
+/-! ### every stored performance blob decodes -/
+
+/-- "The stored blob of this column decodes": the bytes the library's encoder produces for the stored value exist, and
+the library's decoder reads exactly that value back from them (`Impl/V1.lean`: the byte-level mirrors of
+performance_data_format.cpp, tied to the real bytes by C02–C05). -/
+def blobDecodes {α} (enc : α → Res Bytes) (dec : Bytes → Res α) (col : α) : Prop := ∃ b, enc col = .ok b ∧ dec b = .ok col
+
+theorem blobDecodes_of_viaBytes {α} (enc : α → Res Bytes) (dec : Bytes → Res α) (col : α)
+    (h : TracksV1.viaBytes enc dec col = .ok col) : blobDecodes enc dec col := by
+  unfold TracksV1.viaBytes at h
+  cases he : enc col with
+  | ok b => rw [he] at h; exact ⟨b, he, h⟩
+  | throw e => rw [he] at h; cases h
+  | ub u => rw [he] at h; cases h
+
+/-- **Every stored performance blob decodes**, from the codec-fixed-point invariant `BlobsFix`: for every track and each of
+the six PerformanceData columns the encoder's bytes of the stored value decode to that very value — track data, beat data
+and quick cues unconditionally; loops and the two waveforms for columns below the size any C++ vector can have (the
+hypothesis of the codecs package's round-trip theorems, an explicit arithmetic bound on the stored column itself). -/
+theorem C11_lib1_stored_blobs_decode (L : Lib1) (h : BlobsFix L) (id : Int) (r : TracksV1.TrackRows) (p : TracksV1.PerfRow)
+    (hr : L.tr.rows id = some r) (hp : r.perf = some p) :
+    blobDecodes Impl.V1.encodeTrack Impl.V1.decodeTrack p.trackData ∧
+    blobDecodes Impl.V1.encodeBeat Impl.V1.decodeBeat p.beat ∧
+    blobDecodes Impl.V1.encodeCues Impl.V1.decodeCues p.cues ∧
+    (p.loops.length < Codec.maxCount → blobDecodes Impl.V1.encodeLoops Impl.V1.decodeLoops p.loops) ∧
+    (30 + 6 * p.hires.entries.length < Codec.maxCount → blobDecodes Impl.V1.encodeHires Impl.V1.decodeHires p.hires) ∧
+    (27 + 3 * p.overview.entries.length < Codec.maxCount → blobDecodes Impl.V1.encodeOvw Impl.V1.decodeOvw p.overview) := by
+  obtain ⟨f1, f2, f3, f4, f5⟩ := h id r hr p hp
+  refine ⟨?_, ?_, ?_, ?_, ?_, ?_⟩
+  · apply blobDecodes_of_viaBytes; rw [TracksV1.bridge_track, f1]
+  · apply blobDecodes_of_viaBytes; rw [TracksV1.bridge_beat, f2]
+  · apply blobDecodes_of_viaBytes
+    have := TracksV1.bridge_cues p.cues
+    rw [f3] at this
+    exact TracksV1.Res.agree_ok this
+  · intro hl
+    apply blobDecodes_of_viaBytes
+    have := TracksV1.bridge_loops p.loops hl
+    rw [f4] at this
+    exact TracksV1.Res.agree_ok this
+  · intro hl
+    apply blobDecodes_of_viaBytes; rw [TracksV1.bridge_hires _ hl]; rfl
+  · intro hl
+    apply blobDecodes_of_viaBytes; rw [TracksV1.bridge_ovw _ hl, f5]
+
+/-- … in every state reachable through the composite step, on every schema version, after every history. -/
+theorem C11_lib1_stored_blobs_decode_reachable (o : FOps) (s : VSchema) (um up dir : Bytes) (cs : List Call) :
+    BlobsFix (run o s (Lib1.empty s um up dir) cs) :=
+  blobsFix_run o cs (libInv_empty s um up dir) (blobsFix_empty s um up dir)
 
 end EngineModel.Properties.C11Lib1
